@@ -7,11 +7,13 @@ import VaxisModel.Lemmas.ConcMeasure
 `Inv s` collects the conservation laws of the Close / Suspend / Resume protocol: who may be inside
 `Close`, who may be inside `Suspend`, where the close signal and the closed signal are, that the
 parser's channel is closed exactly when the parser is done, and that the reader will be woken up.
-It says nothing about the event queue, about who consumes, about kill signals or about which
-goroutine runs `Close` (F13 and F53 are repaired: the protocol no longer needs such hypotheses).
+It says nothing about the event queue, about who consumes, about kill signals, about which
+goroutine runs `Close`, nor about who calls `Suspend` when (F13, F53 and F210 are repaired: the
+protocol no longer needs such hypotheses).
 It holds in a running session, is preserved by every label a scheduler may pick and by the
-environment's labels under their side conditions (a sequential main goroutine; `Close` from any
-number of goroutines, the input goroutines included), and in a state of rest it forces every caller
+environment's labels (`Close` and `Suspend` from any number of goroutines at any time, the input
+goroutines included; the only side condition is on `Resume`: nobody inside `Close`/`Suspend`, not
+closed), and in a state of rest it forces every caller
 to have returned and the library's goroutines to be done.
 -/
 namespace VaxisModel.Lemmas.ConcInv
@@ -116,10 +118,6 @@ structure Inv (s : SSys) : Prop where
   /-- at most one goroutine is past the test-and-set of `closed`, and `chQuit` is closed by it -/
   flag : sumBy fActive s.callers + s.quitCloses = b2n s.closedFlag
   pastFlag : 1 ≤ sumBy fPastFlag s.callers → b2n s.closedFlag = 1
-  /-- the main goroutine is sequential: a bare `Suspend` excludes any other call, and no kill signal is
-  pending while it runs (`vx.suspended` is a plain field) -/
-  seq1 : sumBy fSusp s.callers ≤ 1
-  seq2 : 1 ≤ sumBy fSusp s.callers → sumBy fCloseSide s.callers + b2n s.killSig = 0
   wellTyped : sumBy fBad s.callers = 0
   /-- the close signal: sent = pending + taken by the parser -/
   sig : sumBy fWD s.callers + sumBy fWC s.callers + pT s = s.closeSig + pX s.ppc
@@ -134,6 +132,8 @@ structure Inv (s : SSys) : Prop where
   /-- the reader is woken up: a pending close signal with the parser blocked in `ReadRune` on an
   empty input means the DA1 query is still to be written or its reply is still to come -/
   wake : s.closeSig + pR s.ppc + emptyN s.inbuf ≤ 2 + sumBy fWD s.callers + s.da1Pending
+  /-- `vx.suspendMu` is held exactly while some goroutine is inside `Suspend` past its guard -/
+  lock : b2n s.suspLock = sumBy fSC s.callers + sumBy fWD s.callers + sumBy fWC s.callers
 
 /-- A running session with nobody closing or suspending satisfies the invariant — whatever the queue
 holds, whether or not anybody consumes, whatever input and signals are pending, whatever the input
@@ -142,31 +142,35 @@ theorem inv_running (q n : Nat) (c : Bool) (ib : List (Option Nat)) (i : IPc) (s
     (hq : 1 ≤ q) :
     Inv { qcap := q, queueLen := n, consumer := c, inbuf := ib, ppc := .reading, ipc := i, seqs := sq, killSig := k,
           winchSig := w, olds := o } := by
-  refine ⟨rfl, rfl, hq, by simp [sumBy], by simp [sumBy], by simp [sumBy], by simp [sumBy], by simp [sumBy],
+  refine ⟨rfl, rfl, hq, by simp [sumBy], by simp [sumBy], by simp [sumBy],
     by simp [sumBy, pT, pX, pD], by simp, by simp [sumBy, pT, pD], by simp [sumBy, pT, pD], by simp [sumBy],
-    by simp [pD], ?_⟩
+    by simp [pD], ?_, by simp [sumBy]⟩
   simp [pR, emptyN, sumBy]; omega
 
 /-- The invariant does not mention the input goroutines, their channels' contents or the queue. -/
 theorem inv_ipc_seqs (s : SSys) (i : IPc) (q : List Tok) (h : Inv s) : Inv { s with ipc := i, seqs := q } :=
-  ⟨h.order, h.clears, h.qpos, h.flag, h.pastFlag, h.seq1, h.seq2, h.wellTyped, h.sig, h.closed, h.susp, h.excl, h.afterClose,
-    h.chan, h.wake⟩
+  ⟨h.order, h.clears, h.qpos, h.flag, h.pastFlag, h.wellTyped, h.sig, h.closed, h.susp, h.excl, h.afterClose,
+    h.chan, h.wake, h.lock⟩
 
 theorem inv_olds (s : SSys) (o : List Old) (h : Inv s) : Inv { s with olds := o } :=
-  ⟨h.order, h.clears, h.qpos, h.flag, h.pastFlag, h.seq1, h.seq2, h.wellTyped, h.sig, h.closed, h.susp, h.excl, h.afterClose,
-    h.chan, h.wake⟩
+  ⟨h.order, h.clears, h.qpos, h.flag, h.pastFlag, h.wellTyped, h.sig, h.closed, h.susp, h.excl, h.afterClose,
+    h.chan, h.wake, h.lock⟩
 
 theorem inv_seqs (s : SSys) (q : List Tok) (h : Inv s) : Inv { s with seqs := q } :=
-  ⟨h.order, h.clears, h.qpos, h.flag, h.pastFlag, h.seq1, h.seq2, h.wellTyped, h.sig, h.closed, h.susp, h.excl, h.afterClose,
-    h.chan, h.wake⟩
+  ⟨h.order, h.clears, h.qpos, h.flag, h.pastFlag, h.wellTyped, h.sig, h.closed, h.susp, h.excl, h.afterClose,
+    h.chan, h.wake, h.lock⟩
 
 theorem inv_queueLen (s : SSys) (n : Nat) (h : Inv s) : Inv { s with queueLen := n } :=
-  ⟨h.order, h.clears, h.qpos, h.flag, h.pastFlag, h.seq1, h.seq2, h.wellTyped, h.sig, h.closed, h.susp, h.excl, h.afterClose,
-    h.chan, h.wake⟩
+  ⟨h.order, h.clears, h.qpos, h.flag, h.pastFlag, h.wellTyped, h.sig, h.closed, h.susp, h.excl, h.afterClose,
+    h.chan, h.wake, h.lock⟩
+
+theorem inv_killSig (s : SSys) (b : Bool) (h : Inv s) : Inv { s with killSig := b } :=
+  ⟨h.order, h.clears, h.qpos, h.flag, h.pastFlag, h.wellTyped, h.sig, h.closed, h.susp, h.excl, h.afterClose,
+    h.chan, h.wake, h.lock⟩
 
 theorem inv_winchSig (s : SSys) (b : Bool) (h : Inv s) : Inv { s with winchSig := b } :=
-  ⟨h.order, h.clears, h.qpos, h.flag, h.pastFlag, h.seq1, h.seq2, h.wellTyped, h.sig, h.closed, h.susp, h.excl, h.afterClose,
-    h.chan, h.wake⟩
+  ⟨h.order, h.clears, h.qpos, h.flag, h.pastFlag, h.wellTyped, h.sig, h.closed, h.susp, h.excl, h.afterClose,
+    h.chan, h.wake, h.lock⟩
 
 /-- The invariant is decidable (every law is an (in)equation or an implication between (in)equations
 over natural numbers): concrete states can be checked by evaluation. -/
@@ -175,8 +179,6 @@ instance instDecidableInv (s : SSys) : Decidable (Inv s) :=
     (s.da1First = false ∧ s.resumeClears = true ∧ 1 ≤ s.qcap ∧
      sumBy fActive s.callers + s.quitCloses = b2n s.closedFlag ∧
      (1 ≤ sumBy fPastFlag s.callers → b2n s.closedFlag = 1) ∧
-     sumBy fSusp s.callers ≤ 1 ∧
-     (1 ≤ sumBy fSusp s.callers → sumBy fCloseSide s.callers + b2n s.killSig = 0) ∧
      sumBy fBad s.callers = 0 ∧
      sumBy fWD s.callers + sumBy fWC s.callers + pT s = s.closeSig + pX s.ppc ∧
      s.closedSig ≤ pD s.ppc ∧
@@ -184,10 +186,11 @@ instance instDecidableInv (s : SSys) : Decidable (Inv s) :=
      sumBy fSC s.callers + sumBy fWD s.callers + sumBy fWC s.callers + pT s ≤ 1 ∧
      (1 ≤ sumBy fCQ s.callers + s.quitCloses → b2n s.suspendedFlag = 1) ∧
      b2n s.seqsClosed = pD s.ppc ∧
-     s.closeSig + pR s.ppc + emptyN s.inbuf ≤ 2 + sumBy fWD s.callers + s.da1Pending)
-    ⟨fun ⟨a1, a2, a3, a4, a5, a6, a7, a8, a9, a10, a11, a12, a13, a14, a15⟩ =>
-       ⟨a1, a2, a3, a4, a5, a6, a7, a8, a9, a10, a11, a12, a13, a14, a15⟩,
-     fun h => ⟨h.order, h.clears, h.qpos, h.flag, h.pastFlag, h.seq1, h.seq2, h.wellTyped, h.sig, h.closed, h.susp, h.excl,
-       h.afterClose, h.chan, h.wake⟩⟩
+     s.closeSig + pR s.ppc + emptyN s.inbuf ≤ 2 + sumBy fWD s.callers + s.da1Pending ∧
+     b2n s.suspLock = sumBy fSC s.callers + sumBy fWD s.callers + sumBy fWC s.callers)
+    ⟨fun ⟨a1, a2, a3, a4, a5, a6, a7, a8, a9, a10, a11, a12, a13, a14⟩ =>
+       ⟨a1, a2, a3, a4, a5, a6, a7, a8, a9, a10, a11, a12, a13, a14⟩,
+     fun h => ⟨h.order, h.clears, h.qpos, h.flag, h.pastFlag, h.wellTyped, h.sig, h.closed, h.susp, h.excl,
+       h.afterClose, h.chan, h.wake, h.lock⟩⟩
 
 end VaxisModel.Lemmas.ConcInv
